@@ -417,6 +417,9 @@ class ListOfDirectPredecessorsGetter(
             *self._get_preds_from_shape(expr.shape),
             expr._container]
 
+    def map_named_array(self, expr: NamedArray) -> list[ArrayOrNames]:
+        return [expr._container]
+
     def _map_index_base(self, expr: IndexBase) -> list[ArrayOrNames]:
         return (
             self._get_preds_from_shape(expr.shape)
